@@ -105,6 +105,27 @@ func genC02(g *Gen) {
 			c02Case(g, ch, tgt, long)
 			c02Case(g, ch, tgt, []*big.Int{})
 			g.Count("valid-long-targets")
+			if g.R.Intn(16) == 0 {
+				// the same shape scaled by 2^64+1, 2^32+1 or -1: every sum relation still holds, every
+				// element agrees with the original in its low machine word (or in absolute value), but
+				// the sequence does not begin with 1 — comparisons on a truncated word accept it
+				for _, m := range []*big.Int{new(big.Int).Add(new(big.Int).Lsh(big.NewInt(1), 64), big.NewInt(1)),
+					new(big.Int).Add(new(big.Int).Lsh(big.NewInt(1), 32), big.NewInt(1)), big.NewInt(-1)} {
+					sc := make(addchain.Chain, len(ch))
+					for i, x := range ch {
+						sc[i] = new(big.Int).Mul(x, m)
+					}
+					c02Case(g, sc, new(big.Int).Set(sc[len(sc)-1]), []*big.Int{new(big.Int).Set(sc[0])})
+					// only the first element replaced / only the last replaced by a value equal in the low word
+					one := cloneInts(ch)
+					one[0] = new(big.Int).Mul(one[0], m)
+					c02Case(g, one, new(big.Int).Set(one[len(one)-1]), nil)
+					last := cloneInts(ch)
+					last[len(last)-1] = new(big.Int).Add(last[len(last)-1], new(big.Int).Lsh(big.NewInt(1), 64))
+					c02Case(g, last, new(big.Int).Set(ch[len(ch)-1]), []*big.Int{new(big.Int).Set(ch[len(ch)-1])})
+				}
+				g.Count("valid-scaled-word")
+			}
 		})
 	}
 	// random longer chains with big values, shuffled, with injected faults
